@@ -23,6 +23,21 @@ def link_tie(bdir, tier):
     histo = ([l for l in out.splitlines() if l.startswith("HISTO")] or [""])[-1]
     run_model(ops, model)
     n, diffs = first_diff(ops, impl, model)
+    # model-free oracle hits of the link-layer harness: concrete failing histories (ops prefix up to the reported offset)
+    hits = []
+    for line in out.splitlines():
+        for flag in ORACLE:
+            if line.startswith(flag + " "):
+                m = re.search(r"ops-file offset (\d+)", line)
+                data = open(ops, "rb").read()
+                if m:
+                    data = data[:int(m.group(1))]
+                idx = max(data.rfind(b"u.new "), data.rfind(b"b.new "), data.rfind(b"p.new "))
+                os.makedirs(os.path.join(ROOT, "replays"), exist_ok=True)
+                dst = os.path.join(ROOT, "replays", "link-%s-seed%d.txt" % (flag, seed()))
+                open(dst, "wb").write(data[idx:] if idx >= 0 else data)
+                hits.append((flag, line[len(flag) + 1:][:700], dst))
+    link_tie.hits = hits
     return n, diffs, histo
 
 
